@@ -1,0 +1,10 @@
+//go:build !verif
+// +build !verif
+
+package engine
+
+import "sync"
+
+func verifHook(site string, a, b int64) {}
+
+func verifLocked(m *sync.Mutex) int64 { return 0 }
